@@ -253,3 +253,18 @@ contract(
     note="components are compared after sorting by name: the order of first occurrence in the text is not part of the model "
          "(sorted() of a sequence is assumed to be invariant under permutation for an injective key)",
 )
+
+# other known shapes of sorted_assignments (filter first, sort afterwards): the top-level clauses are unchanged, so the
+# C12 clause `derivative_order_independent_of_remove_unused` is checked - and fails - on them
+_sa = CONTRACTS[O + "sorted_assignments"]
+_sa.alternatives = [
+    dict(where={"ALL": "self.intermediates + self.state_derivatives"},
+         ensures={"lookup_of_sorted_names": "result == lookup_seq(self, sort_assignments(ite(remove_unused, filter_kept(ALL, self.dependents(), len(ALL)), ALL), assignments_only), "
+                                            "len(sort_assignments(ite(remove_unused, filter_kept(ALL, self.dependents(), len(ALL)), ALL), assignments_only)))",
+                  "derivative_order_independent_of_remove_unused": _sa.ensures["derivative_order_independent_of_remove_unused"]},
+         comps={0: "filter_kept(ALL, deps, j)", 1: "lookup_seq(self, names, j)"}, uses=[]),
+    dict(where={"INPUT": "ite(remove_unused, filter_used(self.intermediates, self.dependents(), len(self.intermediates)), self.intermediates) + self.state_derivatives"},
+         ensures={"lookup_of_sorted_names": "result == lookup_seq(self, sort_assignments(INPUT, assignments_only), len(sort_assignments(INPUT, assignments_only)))",
+                  "derivative_order_independent_of_remove_unused": _sa.ensures["derivative_order_independent_of_remove_unused"]},
+         comps={0: "filter_used(intermediates, deps, j)", 1: "lookup_seq(self, names, j)"}, uses=[]),
+]
